@@ -22,7 +22,7 @@ WIDTHS = {"widths_2": "[7 2]", "widths_3": "[7 7 5]"}
 
 def validate_trace(ctx, path, stage):
     return ctx.tlc("TableAssemblyTrace", "TableAssemblyTrace.cfg", workers=1, files={"trace.ndjson": path},
-                   timeout=1500, name=stage, expect_violation=True)
+                   timeout=3000, name=stage, expect_violation=True)
 
 
 def run(ctx):
@@ -32,7 +32,7 @@ def run(ctx):
     ntrace = 1500 if th else 300
     res2, out2, rc2 = ctx.go_test("internal/api", "TestVerifC25Random",
                                   env={"VERIF_NRANDOM": 300000 if th else 20000, "VERIF_NTRACE": ntrace},
-                                  timeout=1500)
+                                  timeout=6000 if th else 1500)
     res2 = ctx.need_result(res2, out2, rc2, "TestVerifC25Random")
     consts = res2.get("consts", {})
     for k, v in WIDTHS.items():
@@ -120,7 +120,7 @@ def run(ctx):
             walks.append(b)
     if not walks:
         raise Infra("no paging walks exported")
-    res4, out4, rc4 = ctx.go_test("internal/api", "TestVerifC25Paging", inp=walks, timeout=1500)
+    res4, out4, rc4 = ctx.go_test("internal/api", "TestVerifC25Paging", inp=walks, timeout=6000 if th else 1500)
     res4 = ctx.need_result(res4, out4, rc4, "TestVerifC25Paging")
     if res4["replayed"] != 2 * len(walks):
         raise Infra("paging driver replayed %d of %d walks" % (res4["replayed"], 2 * len(walks)))
@@ -130,7 +130,7 @@ def run(ctx):
     for s in res4.get("samples", [])[:1]:
         ctx.ev.sample(s)
     # 3. S->I: the enumerated inputs on the real code
-    res, out, rc = ctx.go_test("internal/api", "TestVerifC25Enum", inp=cases, timeout=1500)
+    res, out, rc = ctx.go_test("internal/api", "TestVerifC25Enum", inp=cases, timeout=6000 if th else 1500)
     res = ctx.need_result(res, out, rc, "TestVerifC25Enum")
     if res["replayed"] != len(cases):
         raise Infra("driver replayed %d of %d cases" % (res["replayed"], len(cases)))
@@ -147,9 +147,9 @@ TRACE_SIG = {"invariant:TrAligned": "columns", "invariant:TrUnique": "duplicate-
 
 
 def assumptions(ctx):
-    ctx.ev.assume("storage contract: one group per time slot of the LOD, rows of a group sorted by tags in the "
-                  "requested direction, a key at most once per query, LODs ascending and adjacent (as GetLODs "
-                  "produces them)")
+    ctx.ev.assume("storage contract: one group per time slot of the LOD, a key at most once per query, LODs ascending and "
+                  "adjacent (as GetLODs produces them); the rows of a group come in the order the real query asks for "
+                  "(the stub reads the ORDER BY clause of buildSeriesQuery; a sort key without DESC is ascending)")
     ctx.ev.assume("tags are raw integers (no mapping storage), the string top is an unmapped string; a handler-what "
                   "serves 7 functions (tsValueCount), so 2/3 handler-whats are exercised with 9/19 functions")
     ctx.ev.assume("markers carry all group-by tags (as the markers returned by the endpoint do)")
